@@ -115,3 +115,24 @@ Qed.
 
 Lemma lock_fields_monotone_seq cmds c k : lock_mono_ok (run cmds) (fst (step (run cmds) c)) c k = true.
 Proof. apply lock_fields_monotone. apply (run_sorted cmds). Qed.
+
+(* a status check that reports the transaction rolled back (TTL expiry, either flavour) has removed its lock *)
+Lemma status_rolled_back_unlocked cmds k s caller cur rine rp a :
+  snd (step (run cmds) (CheckTxnStatus k s caller cur rine rp)) = RStatus 0 0 a ->
+  a = ATTLExpireRollback \/ a = ATTLExpirePessimisticRollback ->
+  own_lock (get_ks (fst (step (run cmds) (CheckTxnStatus k s caller cur rine rp))) k) s = None.
+Proof.
+  destruct (run_sorted cmds) as [Hs _]. set (st := run cmds) in *. cbn [step].
+  destruct (check_txn_status_key (get_ks st k) k s caller cur rine rp) as [o r] eqn:E. cbn [fst snd].
+  intros Er Ha. subst r. rewrite get_apply_opt by exact Hs. rewrite N.eqb_refl.
+  unfold check_txn_status_key in E. destruct (own_lock (get_ks st k) s) as [l|] eqn:Eo.
+  - pose proof Eo as Eo'. apply own_lock_some in Eo'. destruct Eo' as [El Es]. destruct (ttl_expired l cur).
+    + destruct (rp && is_pess l) eqn:Erp.
+      * apply andb_true_iff in Erp. destruct Erp as [_ Ep]. inversion E; subst o.
+        unfold pess_rollback_key, pess_rollback_match. rewrite El, Ep, N.eqb_refl, N.leb_refl. reflexivity.
+      * inversion E; subst o. reflexivity.
+    + destruct (caller =? max_ts); [inversion E; subst; destruct Ha; discriminate|].
+      destruct (0 <? l_min_commit l); [destruct (l_min_commit l <? caller + 1)|]; inversion E; subst; destruct Ha; discriminate.
+  - destruct (find_start s (ks_writes (get_ks st k))) as [w|]; [destruct (is_rollback w); inversion E; subst; destruct Ha; discriminate|].
+    destruct rine; [destruct rp|]; inversion E; subst; destruct Ha; discriminate.
+Qed.
